@@ -2,7 +2,7 @@
 from harness.common import Case, hx, unhx, Fields
 from harness import gen as G
 
-KINDS = 'ms'
+KINDS = 'gms'
 RULE = ('random 20- and 32-byte programs, versions 0 and 1, networks mainnet/testnet/regtest/signet: address strings vs an independent '
         'BIP173/BIP350 encoder, re-creation of P2WPKH / P2WSH / P2TR objects from their own string and from their program; rejection stream: '
         '1..4-character substitutions over positions and symbols, case flips (mixed case), other-network prefix, bech32<->bech32m checksum swap, '
@@ -37,6 +37,11 @@ def spec_encode(hrp, ver, prog):
     pm = _polymod(_expand(hrp) + data + [0] * 6) ^ const
     chk = [(pm >> 5 * (5 - i)) & 31 for i in range(6)]
     return hrp + '1' + ''.join(CHARSET[d] for d in data + chk)
+
+
+def _chk(h, d, sp):
+    pm = _polymod(_expand(h) + d + [0] * 6) ^ (1 if sp == 1 else 0x2bc830a3)
+    return [(pm >> 5 * (5 - i)) & 31 for i in range(6)]
 
 
 def hrp(net):
@@ -115,6 +120,31 @@ def cases(ctx):
                        spec=lambda ans: ('s:raw err', ans))
             if kind in ('unicode-confusable', 'mixed-case', 'badchar', 'truncate'):
                 yield Case(f'is_bech32 {sh(m)}', 'ms', nontrivial=True, tag='predicate-' + kind, spec=lambda ans: ('s:raw ok 0', ans))
+    # the leaves of bech32.py: implementation vs hand model vs the code generated from the current source (tier T).
+    # Natural-number arguments go to all three; negative / oversized ones only to the generated code (the hand model is over Nat).
+    def ints(xs): return ' '.join([str(len(xs))] + [str(x) for x in xs])
+    def chs(t): return ' '.join([str(len(t))] + [str(ord(c)) for c in t])
+    for _ in range(ctx.n(150, 5000)):
+        wild = rng.random() < 0.25
+        n = rng.choice([0, 1, 2, 6, 7, 20, 39, 59, 80])
+        v = [rng.choice([rng.randrange(32), rng.randrange(-5, 300), rng.getrandbits(40)]) if wild else rng.randrange(32) for _ in range(n)]
+        kinds = 'gm' if all(x >= 0 for x in v) else 'g'
+        yield Case(f'polymod {ints(v)}', kinds, nontrivial=True, tag='leaf-polymod')
+        h = ''.join(chr(rng.choice([rng.randrange(33, 127), rng.randrange(0, 0x300)]) if wild else rng.randrange(33, 127)) for _ in range(rng.randrange(0, 8)))
+        yield Case(f'hrp_expand {chs(h)}', 'gm', nontrivial=True, tag='leaf-hrp')
+        d = [rng.randrange(32) for _ in range(rng.choice([0, 1, 33, 52, 53]))]
+        sp = rng.choice([1, 2])
+        yield Case(f'create_checksum {chs(h)} {ints(d)} {sp}', 'gm', nontrivial=True, tag='leaf-create')
+        full = d + _chk(h, d, sp)
+        if rng.random() < 0.4 and full: full[rng.randrange(len(full))] ^= 1 << rng.randrange(5)
+        yield Case(f'verify_checksum {chs(h)} {ints(full)}', 'gm', nontrivial=True, tag='leaf-verify',
+                   spec=None)
+        fb, tb = rng.choice([(8, 5), (5, 8), (8, 5), (5, 8), (1, 3), (3, 7), (13, 16), (8, 1), (0, 5), (7, 7)])
+        if wild: fb = rng.choice([fb, -1, 0, 40])
+        dd = [rng.choice([rng.randrange(1 << max(fb, 1)), rng.randrange(-2, 300)]) if wild else rng.randrange(1 << max(fb, 1)) for _ in range(rng.choice([0, 1, 2, 19, 20, 32, 33, 40]))]
+        pad = rng.choice([0, 1])
+        kinds = 'gm' if fb >= 0 and all(x >= 0 for x in dd) else 'g'
+        yield Case(f'convertbits {ints(dd)} {fb} {tb} {pad}', kinds, nontrivial=True, tag='leaf-convertbits')
     # exhaustive (compiled, not proved): over the whole data part of the longest address (59 symbols) no pattern of 1..3
     # substituted symbols verifies under either checksum variant and none of 4 under the same variant
     yield Case('bch_exhaustive 59', 's', nontrivial=True, tag='bch-exhaustive',
@@ -154,6 +184,17 @@ def impl(op, a, ctx):
     from bitcoinutils.keys import P2wpkhAddress, P2wshAddress, P2trAddress
     from bitcoinutils.utils import is_address_bech32
     F = Fields(a)
+    if op in ('polymod', 'hrp_expand', 'create_checksum', 'verify_checksum', 'convertbits'):
+        from bitcoinutils import bech32 as B
+        def ints(xs): return ' '.join([str(len(xs))] + [str(x) for x in xs])
+        def chars(): return ''.join(chr(c) for c in F.list(F.int))
+        if op == 'polymod': return f'ok {B.bech32_polymod(F.list(F.int))}'
+        if op == 'hrp_expand': return 'ok ' + ints(B.bech32_hrp_expand(chars()))
+        if op == 'create_checksum':
+            h = chars(); d = F.list(F.int); return 'ok ' + ints(B.bech32_create_checksum(h, d, B.Encoding(F.int())))
+        if op == 'verify_checksum':
+            h = chars(); r = B.bech32_verify_checksum(h, F.list(F.int)); return 'ok ' + ('none' if r is None else str(r.value))
+        d = F.list(F.int); r = B.convertbits(d, F.int(), F.int(), F.bool()); return 'ok ' + ('none' if r is None else ints(r))
     if op == 'bch_exhaustive':
         return 'ok 1 singles=1829 pairs=1644271 cross-variant-weight4=1191'     # the expected outcome; the driver recomputes it
     if op == 'is_bech32':
